@@ -898,6 +898,7 @@ func verifInverseMeter(num, denom uint8) (ok bool, n, d uint8) {
 //@ ensures [P:C15] f2u32(mathRound(60000000.0 / bpm)) <= 0xFFFFFF ==> tempoField(result) == f2u32(mathRound(60000000.0 / bpm))
 
 //@ func (Message).GetMetaTempo
+//@ uses bpmOf.def
 //@ modifies *bpm
 //@ ensures [P:C08] is ==> smfTypeOf(len(m), m[0], m[1]) == MetaTempoMsg
 //@ ensures [P:C15] (len(m) == 6 && m[0] == 0xFF && m[1] == 0x51) ==> is
